@@ -1,7 +1,1 @@
-import XV.Gen.Utf8Tables
-import XV.Spec.Utf8
-import XV.Model.Utf8
-import XV.Props.C05
-import XV.Props.C11
-import XV.Props.C07
-import XV.Props.C06
+import XV.Props.C09
